@@ -88,6 +88,54 @@ def run(ctx, F, rule=RULE):
                     fails.append("%s(%s) yields %s %r, expected %r" % (nm, en, status, val, w))
         ctx.ob(rule, "%s:%s" % (rule, nm), not fails, "BooleanFunction::%s (%s): %s" % (nm, F.where(fid), " || ".join(fails) if fails else
                                                                                         "compares with the %s terminal" % ("false" if nm == "satisfiable" else "true")))
+    # ---- substitute: the empty-substitution shortcut -----------------------------------------------------------------------
+    fid = "oxidd_core::function::FunctionSubst::substitute"
+    if ctx.anchor(rule, fid, fid in F.hir):
+        from tables import OK
+
+        class Subst:
+            def __init__(self, k):
+                self.k = k
+
+        class SD(DefDomain):
+            def call(self, it, name, f, args_e, env, e):
+                nn = f.get("n", "")
+                if nn.endswith("FunctionSubst::substitute_edge"):
+                    args = [it.ev(a, env) for a in args_e]
+                    return Enum(OK, [("substituted", args[1])])
+                if nn.endswith("Function::from_edge"):
+                    return ("function", [it.ev(a, env) for a in args_e][1])
+                return super().call(it, name, f, args_e, env, e)
+
+            def try_(self, it, v):
+                if isinstance(v, Enum) and v.path == OK:
+                    return v.args[0]
+                return super().try_(it, v)
+
+            def method(self, it, m, e, env):
+                name = m.rsplit("::", 1)[-1]
+                recv = it.recv(e, env)
+                if isinstance(recv, Subst):
+                    if name == "pairs":
+                        return ("pairs", recv.k)
+                    if name == "map":
+                        it.args(e, env)
+                        return recv
+                if isinstance(recv, tuple) and recv and recv[0] == "pairs" and name == "len":
+                    return recv[1]
+                if isinstance(recv, Edge) and name == "clone":
+                    return recv
+                return super().method(it, m, e, env)
+        fails = []
+        me = Edge(("N", "f"))
+        for k in (0, 1, 3):
+            for trace, (status, val) in enumerate_runs(lambda o: Interp(F, SD(F), o), lambda it: it.call_fn(fid, [me, Subst(k)])):
+                n += 1
+                want = Enum(OK, [me]) if k == 0 else Enum(OK, [("function", ("substituted", me))])
+                if status != "ok" or val != want:
+                    fails.append("substitute with %d pair(s) yields %s %r, expected %r" % (k, status, val, want))
+        ctx.ob(rule, rule + ":substitute", not fails, "FunctionSubst::substitute (%s): %s" % (F.where(fid), " || ".join(fails[:2]) if fails else
+               "returns the function itself exactly for the empty substitution, substitute_edge's result otherwise"))
     # ---- number predicates -----------------------------------------------------------------------------------------------
     for nm, c in (("is_zero", "zero"), ("is_one", "one"), ("is_nan", "nan")):
         fid = "oxidd_core::function::NumberBase::" + nm
